@@ -83,6 +83,12 @@ func (st *fpState) walk(v reflect.Value, depth int) {
 		st.b.WriteByte(':')
 		st.walk(e, depth+1)
 	case reflect.Struct:
+		if isSyncType(v.Type()) {
+			// synchronisation objects (mutexes, pools, atomics, sync.Map, the scheduler's shims)
+			// change by design and are safe to share: identity only
+			st.b.WriteString("<" + v.Type().String() + ">")
+			return
+		}
 		st.b.WriteByte('{')
 		for i := 0; i < v.NumField(); i++ {
 			if i > 0 {
@@ -171,4 +177,32 @@ func (st *fpState) walk(v reflect.Value, depth int) {
 	default:
 		fmt.Fprintf(&st.b, "<%s>", v.Kind())
 	}
+}
+
+func isSyncType(t reflect.Type) bool {
+	p := t.PkgPath()
+	return p == "sync" || p == "sync/atomic" || strings.HasSuffix(p, "/verifsched")
+}
+
+// typeHasSync reports whether a value of type t contains a synchronisation object.
+func typeHasSync(t reflect.Type, depth int) bool {
+	if depth > 6 {
+		return false
+	}
+	switch t.Kind() {
+	case reflect.Struct:
+		if isSyncType(t) {
+			return true
+		}
+		for i := 0; i < t.NumField(); i++ {
+			if typeHasSync(t.Field(i).Type, depth+1) {
+				return true
+			}
+		}
+	case reflect.Ptr, reflect.Slice, reflect.Array:
+		return typeHasSync(t.Elem(), depth+1)
+	case reflect.Map:
+		return typeHasSync(t.Elem(), depth+1) || typeHasSync(t.Key(), depth+1)
+	}
+	return false
 }
